@@ -72,6 +72,8 @@ any_iter! {
     AC3 / AC3Rev : ks::ArrayChunks<'a, E, 3>, ks::ArrayChunksRev<'a, E, 3> ; item |it: &[E; 3], base: &[E]| w(&it[..], base) ; extra |me: &ks::ArrayChunks<'a, E, 3>, base: &[E]| -> Option<(usize, usize)> { let _ = (me, base); Some(w(me.remainder(), base)) } ;
     AC4 / AC4Rev : ks::ArrayChunks<'a, E, 4>, ks::ArrayChunksRev<'a, E, 4> ; item |it: &[E; 4], base: &[E]| w(&it[..], base) ; extra |me: &ks::ArrayChunks<'a, E, 4>, base: &[E]| -> Option<(usize, usize)> { let _ = (me, base); Some(w(me.remainder(), base)) } ;
     AC5 / AC5Rev : ks::ArrayChunks<'a, E, 5>, ks::ArrayChunksRev<'a, E, 5> ; item |it: &[E; 5], base: &[E]| w(&it[..], base) ; extra |me: &ks::ArrayChunks<'a, E, 5>, base: &[E]| -> Option<(usize, usize)> { let _ = (me, base); Some(w(me.remainder(), base)) } ;
+    AC8 / AC8Rev : ks::ArrayChunks<'a, E, 8>, ks::ArrayChunksRev<'a, E, 8> ; item |it: &[E; 8], base: &[E]| w(&it[..], base) ; extra |me: &ks::ArrayChunks<'a, E, 8>, base: &[E]| -> Option<(usize, usize)> { let _ = (me, base); Some(w(me.remainder(), base)) } ;
+    AC16 / AC16Rev : ks::ArrayChunks<'a, E, 16>, ks::ArrayChunksRev<'a, E, 16> ; item |it: &[E; 16], base: &[E]| w(&it[..], base) ; extra |me: &ks::ArrayChunks<'a, E, 16>, base: &[E]| -> Option<(usize, usize)> { let _ = (me, base); Some(w(me.remainder(), base)) } ;
 }
 
 /// model size -> real size: values >= 100 stand for the neighbourhood of isize::MAX / usize::MAX
@@ -94,6 +96,8 @@ pub fn make<'a>(kind: &str, base: &'a [E], n: usize) -> Option<AnyIt<'a>> {
             3 => AnyIt::AC3(ks::array_chunks(base)),
             4 => AnyIt::AC4(ks::array_chunks(base)),
             5 => AnyIt::AC5(ks::array_chunks(base)),
+            8 => AnyIt::AC8(ks::array_chunks(base)),
+            16 => AnyIt::AC16(ks::array_chunks(base)),
             _ => return None,
         },
         _ => panic!("unknown SliceIter kind {kind}"),
@@ -122,7 +126,146 @@ fn std_ends(kind: &str, base: &[E], lo: usize, hi: usize, n: usize) -> (V, V) {
     }
 }
 
+// ---- zero-sized element type: slices longer than isize::MAX; only lengths are observable
+type Z = ();
+trait ZIt<'a> {
+    fn next(&self) -> Option<(usize, Box<dyn ZIt<'a> + 'a>)>;
+    fn next_back(&self) -> Option<(usize, Box<dyn ZIt<'a> + 'a>)>;
+    fn rev(&self) -> Box<dyn ZIt<'a> + 'a>;
+    fn extra(&self) -> Option<usize>;
+}
+macro_rules! zit {
+    ($( $fwd:ty , $rev:ty ; item $conv:expr ; extra $extra:expr ;)*) => { $(
+        impl<'a> ZIt<'a> for $fwd {
+            fn next(&self) -> Option<(usize, Box<dyn ZIt<'a> + 'a>)> { self.copy().next().map(|(it, n)| (($conv)(it), Box::new(n) as Box<dyn ZIt<'a> + 'a>)) }
+            fn next_back(&self) -> Option<(usize, Box<dyn ZIt<'a> + 'a>)> { self.copy().next_back().map(|(it, n)| (($conv)(it), Box::new(n) as Box<dyn ZIt<'a> + 'a>)) }
+            fn rev(&self) -> Box<dyn ZIt<'a> + 'a> { Box::new(self.copy().rev()) }
+            fn extra(&self) -> Option<usize> { ($extra)(self) }
+        }
+        impl<'a> ZIt<'a> for $rev {
+            fn next(&self) -> Option<(usize, Box<dyn ZIt<'a> + 'a>)> { self.copy().next().map(|(it, n)| (($conv)(it), Box::new(n) as Box<dyn ZIt<'a> + 'a>)) }
+            fn next_back(&self) -> Option<(usize, Box<dyn ZIt<'a> + 'a>)> { self.copy().next_back().map(|(it, n)| (($conv)(it), Box::new(n) as Box<dyn ZIt<'a> + 'a>)) }
+            fn rev(&self) -> Box<dyn ZIt<'a> + 'a> { Box::new(self.copy().rev()) }
+            fn extra(&self) -> Option<usize> { None }
+        }
+    )* };
+}
+zit! {
+    ks::Iter<'a, Z>, ks::IterRev<'a, Z> ; item |_it: &Z| 1usize ; extra |me: &ks::Iter<'a, Z>| Some(me.as_slice().len()) ;
+    ks::IterCopied<'a, Z>, ks::IterCopiedRev<'a, Z> ; item |_it: Z| 1usize ; extra |me: &ks::IterCopied<'a, Z>| Some(me.as_slice().len()) ;
+    ks::Windows<'a, Z>, ks::WindowsRev<'a, Z> ; item |it: &[Z]| it.len() ; extra |_me: &ks::Windows<'a, Z>| None ;
+    ks::Chunks<'a, Z>, ks::ChunksRev<'a, Z> ; item |it: &[Z]| it.len() ; extra |_me: &ks::Chunks<'a, Z>| None ;
+    ks::RChunks<'a, Z>, ks::RChunksRev<'a, Z> ; item |it: &[Z]| it.len() ; extra |_me: &ks::RChunks<'a, Z>| None ;
+    ks::ChunksExact<'a, Z>, ks::ChunksExactRev<'a, Z> ; item |it: &[Z]| it.len() ; extra |me: &ks::ChunksExact<'a, Z>| Some(me.remainder().len()) ;
+    ks::RChunksExact<'a, Z>, ks::RChunksExactRev<'a, Z> ; item |it: &[Z]| it.len() ; extra |me: &ks::RChunksExact<'a, Z>| Some(me.remainder().len()) ;
+    ks::ArrayChunks<'a, Z, 1>, ks::ArrayChunksRev<'a, Z, 1> ; item |it: &[Z; 1]| it.len() ; extra |me: &ks::ArrayChunks<'a, Z, 1>| Some(me.remainder().len()) ;
+    ks::ArrayChunks<'a, Z, 2>, ks::ArrayChunksRev<'a, Z, 2> ; item |it: &[Z; 2]| it.len() ; extra |me: &ks::ArrayChunks<'a, Z, 2>| Some(me.remainder().len()) ;
+    ks::ArrayChunks<'a, Z, 3>, ks::ArrayChunksRev<'a, Z, 3> ; item |it: &[Z; 3]| it.len() ; extra |me: &ks::ArrayChunks<'a, Z, 3>| Some(me.remainder().len()) ;
+    ks::ArrayChunks<'a, Z, 4>, ks::ArrayChunksRev<'a, Z, 4> ; item |it: &[Z; 4]| it.len() ; extra |me: &ks::ArrayChunks<'a, Z, 4>| Some(me.remainder().len()) ;
+}
+
+fn make_zst<'a>(kind: &str, base: &'a [Z], n: usize) -> Option<Box<dyn ZIt<'a> + 'a>> {
+    Some(match kind {
+        "iter" => Box::new(ks::iter(base)),
+        "copied" => Box::new(ks::iter_copied(base)),
+        "windows" => Box::new(ks::windows(base, n)),
+        "chunks" => Box::new(ks::chunks(base, n)),
+        "rchunks" => Box::new(ks::rchunks(base, n)),
+        "chunks_exact" => Box::new(ks::chunks_exact(base, n)),
+        "rchunks_exact" => Box::new(ks::rchunks_exact(base, n)),
+        "array_chunks" => match n {
+            1 => Box::new(ks::array_chunks::<Z, 1>(base)),
+            2 => Box::new(ks::array_chunks::<Z, 2>(base)),
+            3 => Box::new(ks::array_chunks::<Z, 3>(base)),
+            4 => Box::new(ks::array_chunks::<Z, 4>(base)),
+            _ => return None,
+        },
+        _ => panic!("unknown SliceIter kind {kind}"),
+    })
+}
+
+/// the same step sequence on std's iterator of the same name (lengths only); None where std has no such iterator
+fn std_zst(kind: &str, base: &[Z], n: usize, path: &[String], fwd: bool) -> Option<(Option<usize>, Option<usize>)> {
+    macro_rules! drive {
+        ($it:expr, $len:expr) => {{
+            let mut it = $it;
+            let mut f = true;
+            for op in path {
+                match (op.as_str(), f) {
+                    ("rev", _) => f = !f,
+                    ("next", true) | ("next_back", false) => { it.next()?; }
+                    _ => { it.next_back()?; }
+                }
+            }
+            let (a, b) = (it.clone().next().map($len), it.clone().next_back().map($len));
+            debug_assert_eq!(f, fwd);
+            Some(if f { (a, b) } else { (b, a) })
+        }};
+    }
+    match kind {
+        "iter" | "copied" => drive!(base.iter(), |_x: &Z| 1usize),
+        "windows" => drive!(base.windows(n), |x: &[Z]| x.len()),
+        "chunks" => drive!(base.chunks(n), |x: &[Z]| x.len()),
+        "rchunks" => drive!(base.rchunks(n), |x: &[Z]| x.len()),
+        "chunks_exact" | "array_chunks" => drive!(base.chunks_exact(n), |x: &[Z]| x.len()),
+        "rchunks_exact" => drive!(base.rchunks_exact(n), |x: &[Z]| x.len()),
+        _ => None,
+    }
+}
+
+/// a record whose length is >= 100 denotes a slice of a zero-sized element type with the projected length
+fn replay_zst(s: &mut Summary, v: &V) {
+    use crate::m_sliceindex::p8;
+    let kind = v["kind"].as_str().unwrap();
+    let len = p8(v["len"].as_u64().unwrap());
+    let n = big(v["n"].as_u64().unwrap() as usize);
+    let base: &[Z] = unsafe { std::slice::from_raw_parts(std::ptr::NonNull::<Z>::dangling().as_ptr(), len) };
+    let Some(mut it) = make_zst(kind, base, n) else { s.note("array_chunks N not instantiated (ZST)"); return };
+    let path: Vec<String> = v["path"].as_array().unwrap().iter().map(|x| x.as_str().unwrap().to_string()).collect();
+    for op in &path {
+        let r = match op.as_str() {
+            "next" => it.next().map(|x| x.1),
+            "next_back" => it.next_back().map(|x| x.1),
+            _ => Some(it.rev()),
+        };
+        match r {
+            Some(n2) => it = n2,
+            None => { s.monitor(&format!("{kind}/ZST path"), false, "a step of the witness path returned None on the real iterator"); return; }
+        }
+    }
+    let fwd = v["fwd"].as_bool().unwrap();
+    // expected lengths: difference of the projected window ends
+    let wl = |x: &V| -> Option<usize> { x.get("some").map(|w| p8(w[1].as_u64().unwrap()).wrapping_sub(p8(w[0].as_u64().unwrap()))) };
+    let (en, eb) = (wl(&v["next"]), wl(&v["next_back"]));
+    // the projection of the 8-bit model onto 64-bit lengths is exact only when std agrees with it: otherwise skip
+    if let Some(stdv) = std_zst(kind, base, n, &path, fwd) {
+        if stdv != (en, eb) {
+            s.note("ZST record skipped: the projected expectation is not exact for these numbers");
+            return;
+        }
+    }
+    let tag = format!("{kind}{}<ZST>", if fwd { "" } else { "/Rev" });
+    s.check(&format!("{tag}::next (length)"), json!(it.next().map(|x| x.0)), &json!(en));
+    s.check(&format!("{tag}::next_back (length)"), json!(it.next_back().map(|x| x.0)), &json!(eb));
+    if let Some(e) = it.extra() {
+        let st = &v["st"];
+        let exp = if kind == "iter" || kind == "copied" {
+            p8(st["hi"].as_u64().unwrap()).wrapping_sub(p8(st["lo"].as_u64().unwrap()))
+        } else {
+            p8(st["rem"][1].as_u64().unwrap()).wrapping_sub(p8(st["rem"][0].as_u64().unwrap()))
+        };
+        s.check(&format!("{tag}::as_slice|remainder (length)"), json!(e), &json!(exp));
+    }
+}
+
 pub fn replay(s: &mut Summary, v: &V) {
+    if v["len"].as_u64().unwrap() >= 100 {
+        return replay_zst(s, v);
+    }
+    replay_sized(s, v)
+}
+
+fn replay_sized(s: &mut Summary, v: &V) {
     let kind = v["kind"].as_str().unwrap();
     let len = v["len"].as_u64().unwrap() as usize;
     let n = v["n"].as_u64().unwrap() as usize;
@@ -170,7 +313,7 @@ pub fn record(rng: &mut SmallRng, n_events: usize, out: &mut dyn Write) {
     while left > 0 {
         let kind = KINDS[rng.gen_range(0..KINDS.len())];
         let len = rng.gen_range(0..=200usize);
-        let n = if kind == "array_chunks" { rng.gen_range(1..=5) } else if kind == "iter" || kind == "copied" { 1 }
+        let n = if kind == "array_chunks" { [1, 2, 3, 4, 5, 8, 16][rng.gen_range(0..7)] } else if kind == "iter" || kind == "copied" { 1 }
                 else { [1, 2, 3, 7, 16, len.max(1), len + 1, usize::MAX - rng.gen_range(0..3usize), isize::MAX as usize + rng.gen_range(0..2usize),
                        (usize::MAX - len).saturating_add(rng.gen_range(0..3usize))][rng.gen_range(0..10)] };
         let basev: Vec<E> = (0..len as E).collect();
